@@ -1,4 +1,5 @@
 mod ctl;
+mod pure;
 mod sched;
 
 use serde_json::{json, Value};
@@ -182,6 +183,7 @@ fn main() {
     let args: Vec<String> = std::env::args().collect();
     let code = match args.get(1).map(|s| s.as_str()) {
         Some("sched") => cmd_sched(&args[2..]),
+        Some("pure") => pure::cmd_pure(&args[2..]),
         _ => {
             eprintln!("usage: vh <sched|...> ...");
             2
